@@ -75,3 +75,8 @@ CORPUS += [
       also=[(C, 'class PropertiesResponse(Response):\n    """Response to properties query."""\n', 'class PropertiesResponse(Response):\n    """Response to properties query."""\n\n    _properties: dict = {}\n')]),
     M("n-properties-fresh-dict-call", C, "        self._properties = {}\n\n        self._parse(payload)", "        self._properties = dict()\n\n        self._parse(payload)", "S"),
 ]
+# round 5 (C14.a): unpacking peer bytes into a fixed number of names
+CORPUS += [
+    M("id-bytes-unpacked-before-length-check", C, "            # Stop if out of data\n            if len(caps) < 3:\n                break\n", "            lo, hi = caps[:2]\n            # Stop if out of data\n            if len(caps) < 3:\n                break\n"),
+    M("n-id-bytes-unpacked-after-length-check", C, "            # Stop if out of data\n            if len(caps) < 3:\n                break\n", "            # Stop if out of data\n            if len(caps) < 3:\n                break\n            lo, hi = caps[:2]\n", "S"),
+]
